@@ -384,6 +384,58 @@ def checkType (O : Oracle) (t : Ty) (v : Val) : Except Err Val :=
       | .ok w => .ok w
       | .error _ => fallback
 
+/-! ### arguments that have a default
+
+`adapt_typehints` starts with `if type(val) in {str, bool, int, float} and val == default: return val`.  The
+default is NOT part of `adapt_kwargs`: it is only seen by the outermost call, and only the retry of `_check_type`
+(and `serialize` / `instantiate_classes`) pass it.  `adaptD` is that outermost call. -/
+
+def isSBIF : Val → Bool
+  | .str _ | .bool _ | .int _ | .flt _ => true
+  | _ => false
+
+/-- `adapt_typehints(val, typehint, default=dflt, ...)` -/
+def adaptD (O : Oracle) (ser : Bool) (orig : Option String) (dflt : Option Val) (t : Ty) (v : Val) : Except Err Val :=
+  match dflt with
+  | some d => if isSBIF v && pyEq v d then .ok v else adapt O ser orig t v       -- Python `==`: True == 1 == 1.0
+  | .none => adapt O ser orig t v
+
+/-- `_check_type` of an argument whose default is `dflt`: the first attempt does not pass the default, the retry
+    (only when the original value is a `str`) does -/
+def checkTypeD (O : Oracle) (t : Ty) (dflt : Option Val) (v : Val) : Except Err Val :=
+  let orig := origOf v
+  let val := parseValueOrConfig O v
+  let fallback : Except Err Val := if isValidString t val then .ok val else .error .type
+  match adapt O false orig t val with
+  | .ok w => .ok w
+  | .error .type => fallback
+  | .error .value =>
+    match orig with
+    | .none => fallback
+    | some s =>
+      match adaptD O false orig dflt t (.str s) with
+      | .ok w => .ok w
+      | .error _ => fallback
+
+def parseObjD (O : Oracle) (t : Ty) (dflt : Option Val) (v : Val) : Except Err Val :=
+  match v with
+  | .null => .ok .null
+  | v =>
+    match checkTypeD O t dflt v with
+    | .error e => .error e
+    | .ok .null => .ok .null
+    | .ok w => match checkTypeD O t dflt w with
+      | .error e => .error e
+      | .ok _ => .ok w
+
+def parseArgD (O : Oracle) (t : Ty) (dflt : Option Val) (s : String) : Except Err Val :=
+  match checkTypeD O t dflt (.str s) with
+  | .error e => .error e
+  | .ok .null => .ok .null
+  | .ok w => match checkTypeD O t dflt w with
+    | .error e => .error e
+    | .ok _ => .ok w
+
 /-- value channel: `parser.parse_object({k: v})` for one key = apply pass, then the validation pass
     on the result (whose outcome is only accept/reject).  A top-level `None` is never checked. -/
 def parseObj (O : Oracle) (t : Ty) (v : Val) : Except Err Val :=
